@@ -60,13 +60,14 @@ theorem groups_rt : ∀ (gs : List (List Tok)) (prev : Option Lex) (more : List 
     ∃ W' ln', parseGroups gs.length ⟨renderW (groupsLexemes gs ++ more) W, ln⟩
         = .ok (gs, ⟨renderW more W', ln'⟩) ∧
       GoodW (if gs = [] then prev else some .rb) more W' ∧
-      ln' + nl (renderW more W') = ln + nl (renderW (groupsLexemes gs ++ more) W) := by
+      ln' + nl (renderW more W') = ln + nl (renderW (groupsLexemes gs ++ more) W) ∧
+      W' = W.drop (groupsLexemes gs).length := by
   intro gs
   induction gs with
   | nil =>
     intro prev more W ln _ _ hg
     exact ⟨W, ln, by simp [parseGroups, groupsLexemes], by simpa [groupsLexemes] using hg,
-      by simp [groupsLexemes]⟩
+      by simp [groupsLexemes], by simp [groupsLexemes]⟩
   | cons g gs ih =>
     intro prev more W ln hwf hmore hg
     simp only [List.all_cons, Bool.and_eq_true] at hwf
@@ -97,11 +98,15 @@ theorem groups_rt : ∀ (gs : List (List Tok)) (prev : Option Lex) (more : List 
       have := renderW_length _ hallok W.tail
       simp only [List.length_append, List.length_cons] at this
       omega
-    obtain ⟨W1, ln1, hp1, hgood1, hcons1⟩ :=
+    obtain ⟨W1, ln1, hp1, hgood1, hcons1, hdrop1⟩ :=
       group_rt g (some .lb) (groupsLexemes gs ++ more) W.tail (ln + (W.headD []).count '\n') _
         hwf.1 hmore' hg' hfuel
-    obtain ⟨W2, ln2, hp2, hgood2, hcons2⟩ := ih (some .rb) more W1 ln1 hwf.2 hmore hgood1
-    refine ⟨W2, ln2, ?_, ?_, ?_⟩
+    obtain ⟨W2, ln2, hp2, hgood2, hcons2, hdrop2⟩ := ih (some .rb) more W1 ln1 hwf.2 hmore hgood1
+    refine ⟨W2, ln2, ?_, ?_, ?_, ?_⟩
+    rotate_left 3
+    · rw [hdrop2, hdrop1, tail_drop, List.drop_drop]
+      congr 1
+      simp [groupsLexemes, groupLexemes]; omega
     · simp only [List.length_cons, parseGroups, renderW]
       simp only [Lex.text, List.singleton_append] at hreq ⊢
       rw [hreq]
@@ -146,7 +151,8 @@ theorem command_rt (c : Command) (prev : Option Lex) (more : List Lex) (W : List
     (hg : GoodW prev (c.lexemes ++ more) W) :
     ∃ W' ln' prev', parseCommand ⟨renderW (c.lexemes ++ more) W, ln⟩
         = .ok (c, ⟨renderW more W', ln'⟩) ∧ GoodW prev' more W' ∧
-      ln' + nl (renderW more W') = ln + nl (renderW (c.lexemes ++ more) W) := by
+      ln' + nl (renderW more W') = ln + nl (renderW (c.lexemes ++ more) W) ∧
+      W' = W.drop c.lexemes.length := by
   obtain ⟨h1, h2, h3⟩ := cmdArity_of_wf hwf
   obtain ⟨n1, n2, _⟩ := wfName_ok h1
   have hlex : c.lexemes ++ more = .word c.name :: (groupsLexemes c.groups ++ more) := by
@@ -165,9 +171,9 @@ theorem command_rt (c : Command) (prev : Option Lex) (more : List Lex) (W : List
         simp only [List.cons_append] at this
         simp only [firstMatch, namePat, runPat, List.cons_append, this])
     (some "BST command".toList) true ln
-  obtain ⟨W1, ln1, hp1, hgood1, hcons1⟩ :=
+  obtain ⟨W1, ln1, hp1, hgood1, hcons1, hdrop1⟩ :=
     groups_rt c.groups (some (.word c.name)) more W.tail (ln + (W.headD []).count '\n') h3 hmore hg'
-  refine ⟨W1, ln1, _, ?_, hgood1, ?_⟩
+  refine ⟨W1, ln1, _, ?_, hgood1, ?_, by rw [hdrop1, tail_drop]; simp [Command.lexemes]⟩
   · simp only [parseCommand, renderW, Lex.text]
     rw [hreq]
     simp only [h2, hp1]
@@ -204,10 +210,56 @@ theorem program_rt : ∀ (p : Program) (prev : Option Lex) (W : List Str) (ln fu
     cases fuel with
     | zero => simp at hfuel
     | succ fuel =>
-      obtain ⟨W1, ln1, prev1, hp1, hgood1, _⟩ :=
+      obtain ⟨W1, ln1, prev1, hp1, hgood1, _, _⟩ :=
         command_rt c prev (Program.lexemes p) W ln hwf'.1 (program_lexemes_ok p hwfp) hg
       simp only [Program.lexemes, parseF, hp1]
       rw [ih prev1 W1 ln1 fuel hwfp hgood1 (by simp at hfuel; omega)]
+
+/-- **stage "program", with a continuation**: the commands of a well-formed program are read
+one by one; parsing goes on behind them with the white strings that are left and the line
+number advanced by the `\n`s passed -/
+theorem program_prefix_rt : ∀ (p : Program) (prev : Option Lex) (more : List Lex) (W : List Str)
+    (ln fuel : Nat), WFProg p → (∀ x ∈ more, LexOK x) → GoodW prev (Program.lexemes p ++ more) W →
+    ∃ ln' prev', parseF (fuel + p.length) ⟨renderW (Program.lexemes p ++ more) W, ln⟩
+        = (match parseF fuel ⟨renderW more (W.drop (Program.lexemes p).length), ln'⟩ with
+           | .error e => .error e
+           | .ok q => .ok (p ++ q)) ∧
+      GoodW prev' more (W.drop (Program.lexemes p).length) ∧
+      ln' + nl (renderW more (W.drop (Program.lexemes p).length))
+        = ln + nl (renderW (Program.lexemes p ++ more) W) := by
+  intro p
+  induction p with
+  | nil =>
+    intro prev more W ln fuel _ _ hg
+    refine ⟨ln, prev, ?_, by simpa [Program.lexemes] using hg, by simp [Program.lexemes]⟩
+    simp only [Program.lexemes, List.nil_append, List.length_nil, Nat.add_zero, List.drop_zero]
+    cases parseF fuel ⟨renderW more W, ln⟩ <;> rfl
+  | cons c p ih =>
+    intro prev more W ln fuel hwf hmore hg
+    have hwf' := hwf
+    unfold WFProg at hwf'
+    simp only [List.all_cons, Bool.and_eq_true] at hwf'
+    have hwfp : WFProg p := hwf'.2
+    have hlex : Program.lexemes (c :: p) ++ more = c.lexemes ++ (Program.lexemes p ++ more) := by
+      simp [Program.lexemes]
+    have hmore' : ∀ x ∈ Program.lexemes p ++ more, LexOK x := by
+      intro x hx
+      simp only [List.mem_append] at hx
+      rcases hx with hx | hx
+      · exact program_lexemes_ok p hwfp x hx
+      · exact hmore x hx
+    rw [hlex] at hg ⊢
+    obtain ⟨W1, ln1, prev1, hp1, hgood1, hcons1, hdrop1⟩ :=
+      command_rt c prev (Program.lexemes p ++ more) W ln hwf'.1 hmore' hg
+    obtain ⟨ln2, prev2, hp2, hgood2, hcons2⟩ := ih prev1 more W1 ln1 fuel hwfp hmore hgood1
+    have hd : W1.drop (Program.lexemes p).length = W.drop (Program.lexemes (c :: p)).length := by
+      rw [hdrop1, List.drop_drop]; congr 1; simp [Program.lexemes]
+    rw [hd] at hp2 hgood2 hcons2
+    refine ⟨ln2, prev2, ?_, hgood2, by rw [hcons2, hcons1]⟩
+    have hf : fuel + (c :: p).length = (fuel + p.length) + 1 := by simp; omega
+    rw [hf]
+    simp only [parseF, hp1, hp2]
+    cases parseF fuel ⟨renderW more (W.drop (Program.lexemes (c :: p)).length), ln2⟩ <;> rfl
 
 theorem program_length_le (p : Program) : p.length ≤ (Program.lexemes p).length := by
   induction p with
